@@ -7,7 +7,7 @@ interfaces and the scalar kinds of the type table."""
 import ast
 import re
 
-from sa import tables, templ, pyflow, interop
+from sa import pattern, tables, templ, pyflow, interop
 from sa.loader import AnalysisError
 from sa.consteval import Evaluator, is_unknown
 
@@ -796,6 +796,73 @@ def rule_r7(repo, run, table):
     run.floor(R, "buf_args keys", n, 60)
 
 
+def rule_r8(repo, run, table, types):
+    R = run.rule("C04.R8", "the bind(C) function result is type(C_PTR) for every result the Fortran wrapper receives "
+                           "as a C pointer (over the lookup closure of result statements)")
+    from checks import c01
+    from sa import decide
+    wf = repo.module("wrapf")
+    f = wf.func("Wrapf.wrap_function_interface")
+    chains = [n for n in ast.walk(f) if isinstance(n, ast.If) and "return_deref_attr" in wf.seg(n.test)
+              and "f_result_decl" not in wf.seg(n.test)]
+    # the chain starts at `if c_result_blk.f_result_decl:`
+    top = [n for n in ast.walk(f) if isinstance(n, ast.If) and wf.seg(n.test).endswith(".f_result_decl")]
+    if len(top) != 1 or not chains:
+        raise AnalysisError("C04.R8: result-declaration chain of wrap_function_interface not found")
+    top = top[0]
+    blk = wf.seg(top.test).split(".")[0]
+    pairs, _ = c01.lookup_pairs(table)
+    n = 0
+    for (fname, cname), (fe, ce, fpath, cpath) in sorted(pairs.items(), key=lambda kv: (kv[0][0], kv[0][1] or "")):
+        if fpath[3] != "result":
+            continue
+        deref = fpath[5]
+        decl = "\n".join(fe.lines("declare"))
+        call = "\n".join(fe.lines("call"))
+        argd = "\n".join(fe.lines("arg_decl"))
+        m = re.search(r"(\{\w+\})\s*=\s*\{F_C_call\}", call)
+        expects = False
+        if m:
+            var = re.escape(m.group(1))
+            expects = re.search(r"type\(C_PTR\)[^\n]*::\s*" + var, decl) is not None
+        elif not call and re.search(r"type\(C_PTR\)\s*::\s*\{f_var\}", argd):
+            expects = True
+        if not expects:
+            continue
+        sg = fpath[1]
+        if deref is None and sg != "void":
+            # generate.check_return_pointer gives every indirect POD/struct result a deref value
+            # (explicit, `pointer` with a dimension, else options.return_scalar_pointer)
+            continue
+        n += 1
+
+        def oracle(e, ce=ce, deref=deref):
+            t = wf.seg(e)
+            if t.startswith(blk + "."):
+                return bool(ce.get(t.split(".", 1)[1])) if ce else False
+            if isinstance(e, ast.Compare) and isinstance(e.ops[0], ast.In) and pyflow.is_name(e.left, "return_deref_attr") \
+                    and isinstance(e.comparators[0], (ast.List, ast.Tuple)):
+                return deref in [pyflow.const_str(x) for x in e.comparators[0].elts]
+            return None
+        taken = decide.take([top], oracle)
+        construct = "statements.fc_statements[%s<->%s]:result" % (fname, cname or "c_default")
+        if taken is None:
+            run.unmodelled_site(R, construct, "result-declaration chain not decidable for this pair")
+            continue
+        text = " ".join(s_ for st in taken for s_ in pattern.strings(st))
+        if ce and ce.get("f_result_decl"):
+            text += " " + " ".join(str(x) for x in ce.get("f_result_decl"))
+        if any("bind_c" in wf.seg(st) for st in taken) and sg == "void":
+            vt = types.types.get("void", {})
+            text += " %s %s" % (vt.get("f_c_type") or "", vt.get("f_type") or "")
+        run.check(R, construct, "C_PTR" in text,
+                  "the Fortran wrapper stores the C function value in a type(C_PTR) (deref %s) but the interface declares "
+                  "the result through %s: the C function returns a pointer, Fortran reads a scalar"
+                  % (deref, [wf.seg(st)[:50] for st in taken][:1]), wf.loc(top),
+                  sample=dict(f_entry=fname, c_entry=cname, deref=deref))
+    run.floor(R, "pointer-result pairs", n, 4)
+
+
 def run(repo, run, tier):
     tables.check_model_assumptions(repo)
     table = tables.StatementTable(repo, "statements", "fc_statements")
@@ -808,6 +875,7 @@ def run(repo, run, tier):
     rule_r5(repo, run, helpers)
     rule_r6(repo, run, types)
     rule_r7(repo, run, table)
+    rule_r8(repo, run, table, types)
     run.assumptions.extend([
         "LP64 / ISO_C_BINDING interoperability table in sa/interop.py",
         "table semantics model (base/mixin/language selection) mirrors statements.update_stmt_tree; "
